@@ -30,6 +30,6 @@ def worker(ctx, job):
 
 
 def run(ctx):
-    common.flo_run(ctx, FEATS, 500, 8000, {
+    common.flo_run(ctx, FEATS, 500, 30000, {
         "cond_aux_activations": 50, "cond_aux_immediate": 10, "cond_aux_later_or_never": 10, "cond_aux_completions": 10,
         "main_exited_while_suspended": 10, "later_clauses_skipped": 10, "runs_while_aux_running": 100, "resumed_same_tick": 5})
